@@ -950,6 +950,36 @@ def r8_5(rep):
     bt = [(n, threshold(bu, n, it)) for n in bu.walk() if n["k"] == "Binary" and n["op"] in (">", ">=", "<", "<=")]
     rep.check(bool(bt) and all(t == want for _, t in bt), "limit:bitfield-unit",
               "a bit-field unit is too large from %s bytes (oracle: %d)" % ([t for _, t in bt], want), bu.loc(bu.root))
+    # "some unit is too large" is an existential over ALL fields: the comparison sits in the predicate of an `any` over the whole
+    # field list (or in a loop that returns true), never behind an adapter that stops at / selects the first unit
+    for n, _ in bt:
+        cl = next((a for a in bu.ancestors(n) if a["k"] == "Closure"), None)
+        host = None
+        if cl is not None:
+            host = next((a for a in bu.ancestors(cl) if a["k"] == "MCall" and any(x is cl or strip(x) is cl for x in a["args"])), None)
+        chain = []
+        if host is not None:
+            chain.append(host["name"])
+            x = strip(host["recv"])
+            while x.get("k") == "MCall":
+                chain.append(x["name"])
+                x = strip(x["recv"])
+            # adapters applied to the result of the host call
+            up = host
+            while True:
+                par = bu.parent[up["_i"]]
+                if par is not None and par["k"] == "MCall" and strip(par["recv"]) is up:
+                    chain.insert(0, par["name"])
+                    up = par
+                else:
+                    break
+        in_loop = any(a["k"] in ("For", "While", "Loop") for a in bu.ancestors(n))
+        partial = [m for m in chain if m in ("find_map", "find", "position", "next", "first", "last", "nth", "take", "skip", "take_while",
+                                             "skip_while", "step_by", "min", "min_by_key", "unwrap_or", "unwrap_or_default", "all")]
+        ok = (host is not None and host["name"] == "any" and not partial) or (host is None and in_loop)
+        rep.check(ok, "limit:bitfield-unit:every-unit", "every unit of the record is compared with the limit" if ok else
+                  "the comparison only reaches some of the units (%s): a record whose oversized unit is not the one looked at derives "
+                  "Default / Debug over `[u8; N]` with N > 32" % (" <- ".join(chain) or "no iteration"), bu.loc(n))
 
     # ---- joins ----------------------------------------------------------------------------------------
     cj = rep.need(find_fn(prog, "::constrain_join", "CannotDerive"), "CannotDerive::constrain_join")
@@ -1698,6 +1728,16 @@ def r8_4(rep):
                           "both sides of `==` name the same member (%s vs %s)" % ([x for x, _ in l], [x for x, _ in r]), q.loc())
     gf = rep.need(prog.fn("codegen::impl_partialeq::gen_field"), "impl_partialeq::gen_field")
     _check_kind_arms(rep, gf, "partialeq", lambda names: names & {"quote_equals", "gen_field"}, "PartialEqOrPartialOrd")
+    # a member's comparison is a value, not an option: `eq` is hand-written exactly because some member's own PartialEq cannot be
+    # derived, and that member is the one a "skip what we are not sure about" would leave out
+    out = prog.types[gf.fact["output"]] if gf.fact.get("output") is not None else "?"
+    rep.check(out.endswith("TokenStream") and "Option" not in out and "Vec" not in out, "partialeq:member-comparison-total",
+              "`gen_field` returns the comparison itself (`%s`)" % out if out.endswith("TokenStream") and "Option" not in out else
+              "`gen_field` returns `%s`: a member may contribute no comparison, and two objects differing only in it compare equal" % out,
+              gf.loc(gf.root))
+    early = [(a, pol) for n in gf.walk() if n["k"] == "Ret" for a, pol, _ in qq.guard_atoms(gf, n)]
+    rep.check(not early, "partialeq:member-comparison-no-early-exit", "no early exit in `gen_field`" if not early else
+              "`gen_field` leaves early when `%s%s`" % ("" if early[0][1] else "!", early[0][0][:100]), gf.loc(gf.root))
 
     # ---- F. Debug generator ------------------------------------------------------------------------------------------
     gd = rep.need(prog.fn("codegen::impl_debug::gen_debug_impl"), "gen_debug_impl")
